@@ -115,6 +115,20 @@ fn payload(task: TaskId, instance: u32, channel: u8, seq: usize, size: usize) ->
     (0..size).map(|i| t[i % t.len()]).collect()
 }
 
+/// Text output with multi-byte characters: one continuous stream per (execution, channel), cut
+/// into chunks at byte positions (a chunk boundary may fall inside a character, as it does
+/// when a task prints more than the 16 KiB pipe buffer of non-ASCII text).
+fn payload_text(task: TaskId, instance: u32, channel: u8, offset: usize, size: usize) -> Vec<u8> {
+    let tag = format!(
+        "«{}:{}:{}»€ů—",
+        task.job_task_id().as_num(),
+        instance,
+        channel
+    );
+    let t = tag.as_bytes();
+    (offset..offset + size).map(|i| t[i % t.len()]).collect()
+}
+
 struct ExecRun {
     task: TaskId,
     instance: u32,
@@ -185,6 +199,9 @@ pub fn execute(case: &StreamCase) -> StreamRun {
             for (k, e) in spec.execs.iter().enumerate() {
                 let instance = spec.first_instance as u32 + k as u32;
                 let mut todo = Vec::new();
+                // every third execution prints multi-byte text
+                let text = (*job as u32 + *task as u32 + instance) % 3 == 0;
+                let mut offset = [0usize; 2];
                 for (seq, (ch, sk)) in e.chunks.iter().enumerate() {
                     let size = SIZES[*sk as usize % SIZES.len()];
                     // the worker reads the pipe with a 16 KiB buffer: bigger writes arrive split
@@ -192,7 +209,13 @@ pub fn execute(case: &StreamCase) -> StreamRun {
                     let mut part = 0;
                     while left > 0 {
                         let n = left.min(16384);
-                        todo.push((*ch, payload(tid, instance, *ch, seq * 10 + part, n)));
+                        if text {
+                            let c = (*ch as usize).min(1);
+                            todo.push((*ch, payload_text(tid, instance, *ch, offset[c], n)));
+                            offset[c] += n;
+                        } else {
+                            todo.push((*ch, payload(tid, instance, *ch, seq * 10 + part, n)));
+                        }
                         left -= n;
                         part += 1;
                     }
@@ -423,7 +446,8 @@ pub fn execute(case: &StreamCase) -> StreamRun {
                     ));
                     return run;
                 }
-                if stdout.as_bytes() != data[0].as_slice() {
+                // export gives text: the bytes decoded as (lossy) UTF-8 as a whole
+                if stdout != String::from_utf8_lossy(data[0].as_slice()) {
                     run.alarm = Some((
                         "export disagrees with what the last execution wrote to stdout".into(),
                         format!("job {job} task {task} instance {instance}"),
@@ -563,7 +587,7 @@ impl Engine for StreamEngine {
         out
     }
     fn rule(&self) -> String {
-        "STREAM engine: 1-4 real StreamerRef writers (one per simulated worker) write into one directory; up to 9 tasks with 1-3 executions each (increasing instance ids, on generated writers), 0-6 chunks per execution of sizes {1, 7, 300, 4096, 16384, 16385 -> split as the 16 KiB pipe buffer does}, closing zero-size chunks and flush at task end as program.rs does; chunk sends of concurrently running tasks are interleaved by a generated schedule; crashed writers lose their unflushed tail and their file is cut at a generated offset. The directory is read with the real OutputLog: cat (both channels), export and summary are compared with the bytes the last execution of every task that ended on a live writer wrote. Distinct = hash of the send trace. Non-trivial = chunks of at least two tasks interleaved and (a superseded instance or a torn file)".into()
+        "STREAM engine: 1-4 real StreamerRef writers (one per simulated worker) write into one directory; up to 9 tasks with 1-3 executions each (increasing instance ids, on generated writers), 0-6 chunks per execution of sizes {1, 7, 300, 4096, 16384, 16385 -> split as the 16 KiB pipe buffer does}, closing zero-size chunks and flush at task end as program.rs does; every third execution prints multi-byte UTF-8 text as one continuous stream, so that chunk boundaries fall inside characters; chunk sends of concurrently running tasks are interleaved by a generated schedule; crashed writers lose their unflushed tail and their file is cut at a generated offset. The directory is read with the real OutputLog: cat (both channels), export (the bytes as lossy UTF-8 text) and summary are compared with the bytes the last execution of every task that ended on a live writer wrote. Distinct = hash of the send trace. Non-trivial = chunks of at least two tasks interleaved and (a superseded instance or a torn file)".into()
     }
     fn assumptions(&self) -> Vec<String> {
         vec![
